@@ -27,6 +27,7 @@ type c19Case struct {
 	TimeoutMs int      `json:"timeout_ms"` // 0: Do
 	Faults    []string `json:"faults"`
 	OverFrame string   `json:"oversize_framing"` // cl | chunked | close
+	Stale     int      `json:"stale_pooled_conns,omitempty"` // idle keep-alive connections in the pool whose next write fails (the peer went away)
 }
 
 type c19Plan struct {
@@ -44,7 +45,10 @@ func scenC19(e *Env) func() {
 	base := *flagIndex * n
 	for j := 0; j < n; j++ {
 		c := c19Case{ID: fmt.Sprintf("c%d", j), Method: Pick(e, "GET", "GET", "HEAD", "PUT", "POST", "DELETE", "PATCH"), Body: Pick(e, "none", "none", "bytes", "stream"),
-			Attempts: Pick(e, 0, 0, 1, 2, 3, 6), Callback: Pick(e, "none", "none", "none", "retryif-true", "retryif-false", "retryiferr-true", "retryiferr-reset", "retryiferr-false"), TimeoutMs: Pick(e, 0, 0, 700, 3000)}
+			Attempts: Pick(e, 0, 0, 1, 2, 3, 6), Callback: Pick(e, "none", "none", "none", "retryif-true", "retryif-false", "retryiferr-true", "retryiferr-reset", "retryiferr-false", "retryiferr-slow"), TimeoutMs: Pick(e, 0, 0, 700, 3000)}
+		if !e.Thorough() && e.Chance(25) {
+			c.Stale = Pick(e, 1, 2, 3)
+		}
 		c.OverFrame = Pick(e, "cl", "cl", "chunked", "close")
 		if c.Method == "GET" || c.Method == "HEAD" {
 			if c.Body == "bytes" {
@@ -153,7 +157,23 @@ func c19Run(e *Env, p *c19Plan) {
 			return conn, nil
 		}
 		cbCalls := 0
-		hc := &fasthttp.HostClient{Addr: "10.0.0.2:80", Dial: dial, MaxConns: 1, MaxIdemponentCallAttempts: c.Attempts, MaxResponseBodySize: p.MaxResp, ReadTimeout: 400 * time.Millisecond, MaxIdleConnDuration: time.Hour}
+		nwarm := 0
+		var caseConns []*simnet.Conn
+		rawDial := dial
+		dial = func(addr string) (net.Conn, error) {
+			c, err := rawDial(addr)
+			if sc, ok := c.(*simnet.Conn); ok && err == nil {
+				mu.Lock()
+				caseConns = append(caseConns, sc)
+				mu.Unlock()
+			}
+			return c, err
+		}
+		maxConns := 1
+		if c.Stale > 0 {
+			maxConns = c.Stale
+		}
+		hc := &fasthttp.HostClient{Addr: "10.0.0.2:80", Dial: dial, MaxConns: maxConns, MaxIdemponentCallAttempts: c.Attempts, MaxResponseBodySize: p.MaxResp, ReadTimeout: 400 * time.Millisecond, MaxIdleConnDuration: time.Hour}
 		allow := false
 		reset := false
 		switch c.Callback {
@@ -170,6 +190,34 @@ func c19Run(e *Env, p *c19Plan) {
 			allow, reset = true, true
 		case "retryiferr-false":
 			hc.RetryIfErr = func(*fasthttp.Request, int, error) (bool, bool) { cbCalls++; return false, false }
+		case "retryiferr-slow":
+			// a callback that takes its time (back-off): the time is the request's, which it does not reset
+			hc.RetryIfErr = func(*fasthttp.Request, int, error) (bool, bool) {
+				cbCalls++
+				time.Sleep(500 * time.Millisecond)
+				return false, true
+			}
+			allow = true
+		}
+		if c.Stale > 0 {
+			// fill the pool: c.Stale concurrent warm-up calls, then every pooled connection goes bad
+			cur = "warm-" + c.ID
+			var warm []func()
+			for w := 0; w < c.Stale; w++ {
+				warm = append(warm, func() {
+					rq, rs := fasthttp.AcquireRequest(), fasthttp.AcquireResponse()
+					rq.SetRequestURI("http://10.0.0.2/r?id=warm-" + c.ID)
+					hc.Do(rq, rs)
+				})
+			}
+			WaitAll(time.Minute, "warm", warm...)
+			mu.Lock()
+			for _, sc := range caseConns {
+				sc.F.FailWriteAt = int64(len(sc.Sent())) + 30
+			}
+			nwarm = len(caseConns)
+			mu.Unlock()
+			e.Fault("stale_pooled_conn")
 		}
 		req, resp := fasthttp.AcquireRequest(), fasthttp.AcquireResponse()
 		req.SetRequestURI("http://10.0.0.2/r?id=" + c.ID)
@@ -194,6 +242,14 @@ func c19Run(e *Env, p *c19Plan) {
 		logs := fs.Requests(c.ID)
 		mu.Lock()
 		tried := attempt[c.ID]
+		// transmissions also count when they died on the way: every connection that carries the request line
+		// (attempts = dials made for this request + pooled connections it was written to)
+		for _, sc := range caseConns[:nwarm] {
+			if bytes.Contains(sc.Sent(), []byte("id="+c.ID+" ")) {
+				tried++
+				e.Probe("written-to-stale-pooled-conn")
+			}
+		}
 		mu.Unlock()
 		e.Ob(1)
 		e.Nontrivial = true
